@@ -8210,6 +8210,8 @@ impl GraphEngine {
         let count = edges.len();
         // Check for ID space exhaustion before allocating
         let current = self.edge_counter.load(Ordering::SeqCst);
+        #[cfg(neumann_verif)]
+        tensor_store::verif_hook::point("graph.batch_edge_ids");
         if current > u64::MAX - count as u64 {
             return Err(GraphError::IdSpaceExhausted {
                 entity_type: "edge",
